@@ -1,5 +1,6 @@
 import RedbModel.Model.Buddy
 import RedbModel.Lemmas.Buddy
+import RedbModel.Lemmas.BuddyMore
 /-!
 # C14 — The page allocator never double-allocates and never loses space
 
@@ -52,5 +53,51 @@ theorem c14_record_alloc_iff (mo len : Nat) (f : List Bits) (p o : Nat) (h : Inv
     (∀ f', recordAllocInner mo f p o = some f' →
       Inv mo len f' ∧ (∀ q, PageFree mo f' q ↔ (PageFree mo f q ∧ q / 2 ^ o ≠ p))) :=
   recordAllocInner_spec mo len f p o h
+
+/-- `alloc_lowest` is sound like `alloc` and returns the least index whose block is entirely free. -/
+theorem c14_alloc_lowest_least (mo len : Nat) (f f' : List Bits) (o i : Nat)
+    (h : Inv mo len f) (ha : allocLowest mo f o = some (i, f')) :
+    Inv mo len f' ∧ (i + 1) * 2 ^ o ≤ len ∧
+    (∀ p, p / 2 ^ o = i → PageFree mo f p ∧ ¬ PageFree mo f' p) ∧
+    (∀ p, p / 2 ^ o ≠ i → (PageFree mo f' p ↔ PageFree mo f p)) ∧
+    (∀ j, (∀ p, p / 2 ^ o = j → PageFree mo f p) → i ≤ j) :=
+  more_allocLowest_least mo len f f' o i h ha
+
+/-- `alloc_lowest` refuses only when no aligned block of that order is entirely free. -/
+theorem c14_alloc_lowest_complete (mo len : Nat) (f : List Bits) (o : Nat)
+    (h : Inv mo len f) (ha : allocLowest mo f o = none) :
+    ¬ ∃ i, o ≤ mo ∧ (i + 1) * 2 ^ o ≤ len ∧ ∀ p, p / 2 ^ o = i → PageFree mo f p :=
+  more_allocLowest_complete mo len f o h ha
+
+/-- Region resize, grow: always succeeds, keeps the invariant, frees exactly the new pages. -/
+theorem c14_resize_grow (b : Buddy) (newSize : Nat)
+    (h : Inv b.maxOrder b.len b.free) (hg : b.len < newSize) :
+    ∃ b', b.resize newSize = some b' ∧ b'.len = newSize ∧ b'.maxOrder = b.maxOrder ∧
+      b'.cap = b.cap ∧ Inv b.maxOrder newSize b'.free ∧
+      ∀ q, PageFree b.maxOrder b'.free q ↔
+        (PageFree b.maxOrder b.free q ∨ (b.len ≤ q ∧ q < newSize)) :=
+  more_resize_grow b newSize h hg
+
+/-- Region resize, shrink: possible exactly when the tail is free; keeps the invariant and the
+free pages below the new length. -/
+theorem c14_resize_shrink (b : Buddy) (newSize : Nat)
+    (h : Inv b.maxOrder b.len b.free) (hs : newSize ≤ b.len) :
+    ((b.resize newSize).isSome ↔
+      ∀ q, newSize ≤ q → q < b.len → PageFree b.maxOrder b.free q) ∧
+    ∀ b', b.resize newSize = some b' → b'.len = newSize ∧ b'.maxOrder = b.maxOrder ∧
+      b'.cap = b.cap ∧ Inv b.maxOrder newSize b'.free ∧
+      ∀ q, PageFree b.maxOrder b'.free q ↔ (PageFree b.maxOrder b.free q ∧ q < newSize) :=
+  more_resize_shrink b newSize h hs
+
+/-- Saving and reloading the allocator preserves its state exactly (on-disk format of
+`to_vec`/`from_bytes`), for states satisfying the invariant whose numeric fields fit their
+on-disk widths. Without a bound on the bitmap lengths the statement is false
+(`not_fromBytes_toBytes_without_hbits`): a length of 2^32 is written as 0. -/
+theorem c14_serialize_roundtrip (b : Buddy)
+    (h : Inv b.maxOrder b.len b.free)
+    (hmo : b.maxOrder < 256) (hlen : b.len < 2 ^ 32)
+    (hsz : (Buddy.toBytes b).length < 2 ^ 32) :
+    Buddy.fromBytes (Buddy.toBytes b) b.cap = b :=
+  more_fromBytes_toBytes b h hmo hlen hsz
 
 end Redb.Buddy
